@@ -48,11 +48,13 @@ fn tok_at(toks: &[Tok], off: usize) -> &'static str {
     "end"
 }
 
-fn limits_for(full_len: usize, toks: &[Tok], extra_seed: u64, only: &Option<Vec<u64>>) -> (Vec<usize>, bool) {
+/// `work_cap`: upper bound on the number of limits, so that (limits x tree size) stays bounded
+/// and a case never takes more than a few seconds (big trees get fewer limits)
+fn limits_for(full_len: usize, toks: &[Tok], extra_seed: u64, only: &Option<Vec<u64>>, work_cap: usize) -> (Vec<usize>, bool) {
     if let Some(o) = only {
         return (o.iter().map(|x| *x as usize).collect(), false);
     }
-    if full_len <= 4096 {
+    if full_len <= 4096 && full_len + 2 <= work_cap {
         return ((0..=full_len + 1).collect(), true);
     }
     let mut v: Vec<usize> = Vec::new();
@@ -73,9 +75,10 @@ fn limits_for(full_len: usize, toks: &[Tok], extra_seed: u64, only: &Option<Vec<
     v.extend([0, 1, full_len.saturating_sub(1), full_len, full_len + 1]);
     v.sort_unstable();
     v.dedup();
-    // bound the sweep: at most ~6000 limits, evenly thinned but keeping the ends
-    if v.len() > 6000 {
-        let step = v.len() / 6000 + 1;
+    // bound the sweep: at most min(6000, work_cap) limits, evenly thinned but keeping the ends
+    let max_limits = work_cap.clamp(16, 6000);
+    if v.len() > max_limits {
+        let step = v.len() / max_limits + 1;
         let ends: Vec<usize> = v[v.len() - 5..].to_vec();
         v = v.into_iter().step_by(step).collect();
         v.extend(ends);
@@ -92,7 +95,7 @@ impl Scenario for C29 {
 
     fn generate(rng: &mut Rng, tier: Tier, _run: u64) -> Case {
         let mut cfg = TreeCfg::swarm(rng, tier == Tier::Thorough);
-        if tier == Tier::Quick {
+        if tier == Tier::Quick && cfg.max_leaves < 600 {
             cfg.max_leaves = cfg.max_leaves.min(120);
             if rng.chance(3, 4) {
                 cfg.medium_atoms = false;
@@ -156,7 +159,8 @@ impl Scenario for C29 {
                     Err(_) => Vec::new(),
                 }
             };
-            let (limits, exhaustive) = limits_for(full.len(), &toks_api, case.extra_seed, &case.only);
+            let work_cap = 1_500_000 / case.tree.nodes.len().max(1);
+            let (limits, exhaustive) = limits_for(full.len(), &toks_api, case.extra_seed, &case.only, work_cap);
             if exhaustive {
                 out.count("exhaustive_sweeps", 1);
             } else {
